@@ -8,6 +8,7 @@ package control
 
 import (
 	"context"
+	stderrors "errors"
 	"fmt"
 	"hash/fnv"
 	"io"
@@ -15,6 +16,7 @@ import (
 	"os"
 	"strings"
 	"sync"
+	"syscall"
 	"testing"
 	"time"
 
@@ -52,7 +54,14 @@ func (c *c06UdpConn) SetWriteDeadline(_ time.Time) error { return nil }
 
 type c06Dialer struct{ conn netproxy.Conn }
 
+// number of dials that fail (with an error the endpoint pool does not cache) before dials succeed
+var c06DialFails int
+
 func (d *c06Dialer) DialContext(context.Context, string, string) (netproxy.Conn, error) {
+	if c06DialFails > 0 {
+		c06DialFails--
+		return nil, fmt.Errorf("c06: dial: %w", syscall.ENOBUFS)
+	}
 	return d.conn, nil
 }
 
@@ -105,6 +114,7 @@ func c06RunFlowNoise(qc *c06QuicCase, noise [][]byte) (op, out string) {
 	oldUdp, oldAny, oldSn, oldFailed := DefaultUdpEndpointPool, DefaultAnyfromPool, DefaultPacketSnifferSessionMgr, getFailedQuicDcidCache()
 	DefaultUdpEndpointPool = NewUdpEndpointPool()
 	DefaultPacketSnifferSessionMgr = NewPacketSnifferPool()
+	DefaultPacketSnifferSessionMgr.Close() // stops the wall-clock janitor (5 s TTL); the pool stays usable
 	SetFailedQuicDcidCache(newFailedQuicDcidCache(failedQuicDcidCacheShardCount))
 	defer func() {
 		DefaultUdpEndpointPool.Reset()
@@ -144,7 +154,7 @@ func c06RunFlowNoise(qc *c06QuicCase, noise [][]byte) (op, out string) {
 			return err
 		}
 		for i, d := range qc.datagrams {
-			if err := handle(src, d); err != nil {
+			if err := handle(src, d); err != nil && !stderrors.Is(err, syscall.ENOBUFS) {
 				return "handlePkt-error:" + strings.ReplaceAll(err.Error(), " ", "_")
 			}
 			if i < len(noise) {
@@ -223,6 +233,11 @@ func TestVerifC06Flow(t *testing.T) {
 			version = c06QuicV2
 		}
 		qc := g.quicCase(hc.h.Handshake(), version)
+		if g.r.Chance(0.15) { // a large hello the way clients send it: 6-15 datagrams of 1200 bytes
+			hc = g.bigHello(6000)
+			qc = g.quicCaseManyDatagrams(hc.h.Handshake(), version)
+			g.stats.Inc("flow.many_datagrams")
+		}
 		// handlePkt keys the sniffer session by DCID: keep it in the cacheable range
 		short := false
 		for _, se := range qc.oracle {
@@ -243,10 +258,14 @@ func TestVerifC06Flow(t *testing.T) {
 			c06AppendDatagram(qc, qc.datagrams[0], qc.oracle, 0)
 			kind = "retransmit"
 		case 4, 5: // a datagram that is not a QUIC Initial right after the first one
-			if len(qc.datagrams) >= 2 {
+			if len(qc.datagrams) >= 2 { // after 1 .. n-1 datagrams of the flight (several may be held by then)
+				at := g.r.Range(1, len(qc.datagrams)-1)
 				junk := append([]byte{0x40 | byte(g.r.Intn(64))}, g.bytes(g.r.Range(20, 60))...)
-				qc.datagrams = append(qc.datagrams[:1:1], append([][]byte{junk}, qc.datagrams[1:]...)...)
+				qc.datagrams = append(qc.datagrams[:at:at], append([][]byte{junk}, qc.datagrams[at:]...)...)
 				kind = "short_header_between"
+				if at >= 2 {
+					g.stats.Inc("flow.non_initial_after_two_or_more")
+				}
 			}
 		case 3: // a datagram that is not a QUIC Initial after everything else
 			qc.datagrams = append(qc.datagrams, append([]byte{0x40 | byte(g.r.Intn(64))}, g.bytes(g.r.Range(20, 60))...))
@@ -297,11 +316,58 @@ func TestVerifC06Flow(t *testing.T) {
 	// Two QUIC connections (different DCIDs) opening on one 4-tuple, datagrams interleaved. No model
 	// behind this stream (the flow model has one session): only the property itself — every datagram
 	// reaches the outbound exactly once, each connection's datagrams in their ingress order.
+	flatten := func(out string) []string {
+		var got []string
+		for _, s := range strings.Fields(out) {
+			if strings.HasPrefix(s, "held=") || strings.HasPrefix(s, "dom=") || s == "-" {
+				continue
+			}
+			got = append(got, strings.Split(s, ",")...)
+		}
+		return got
+	}
+	key := func(d []byte) string { return fmt.Sprintf("%d:%d", len(d), c06Fnv(d)) }
+	// every datagram exactly once, each session's datagrams in their ingress order
+	exactlyOnceInOrder := func(got []string, sessions [][][]byte) string {
+		count := map[string]int{}
+		for _, x := range got {
+			count[x]++
+		}
+		total := 0
+		for _, sess := range sessions {
+			last := -1
+			for _, d := range sess {
+				total++
+				k := key(d)
+				if count[k] != 1 {
+					return fmt.Sprintf("datagram %s reached the outbound %d times", k, count[k])
+				}
+				pos := 0
+				for p, x := range got {
+					if x == k {
+						pos = p
+					}
+				}
+				if pos < last {
+					return fmt.Sprintf("datagram %s overtook an earlier one of its connection", k)
+				}
+				last = pos
+			}
+		}
+		if len(got) != total {
+			return fmt.Sprintf("%d datagrams written, %d received", len(got), total)
+		}
+		return ""
+	}
 	m := n / 4
 	for i := 0; i < m; i++ {
 		var qa, qb *c06QuicCase
 		for tries := 0; tries < 50; tries++ {
-			qa = g.quicCase(g.hello().h.Handshake(), c06QuicV1)
+			if g.r.Chance(0.3) {
+				qa = g.quicCaseManyDatagrams(g.bigHello(3000).h.Handshake(), c06QuicV1)
+			} else {
+				qa = g.quicCase(g.hello().h.Handshake(), c06QuicV1)
+			}
 			qb = g.quicCase(g.hello().h.Handshake(), c06QuicV1)
 			if len(qa.datagrams) >= 2 && len(qa.oracle[0].dcid) >= 8 && len(qb.oracle[0].dcid) >= 8 && !qa.hasClose && !qb.hasClose {
 				break
@@ -310,37 +376,64 @@ func TestVerifC06Flow(t *testing.T) {
 		if len(qa.datagrams) < 2 {
 			continue
 		}
-		// interleave: A1, then B's datagrams, then the rest of A
+		// interleave: the first k datagrams of A, then B's datagrams, then the rest of A
+		k := g.r.Range(1, len(qa.datagrams)-1)
+		if k >= 2 {
+			g.stats.Inc("flow.two_connections_two_or_more_held")
+		}
+		junk := append([]byte{0x40 | byte(g.r.Intn(64))}, g.bytes(g.r.Range(20, 60))...)
 		mix := &c06QuicCase{}
-		mix.datagrams = append(mix.datagrams, qa.datagrams[0])
+		mix.datagrams = append(mix.datagrams, qa.datagrams[:k]...)
 		mix.datagrams = append(mix.datagrams, qb.datagrams...)
-		mix.datagrams = append(mix.datagrams, qa.datagrams[1:]...)
+		mix.datagrams = append(mix.datagrams, qa.datagrams[k:]...)
 		// a connection whose first Initial was consumed earlier may legitimately still be waiting at
 		// the end; a closing datagram that is not a QUIC Initial must flush whatever is held
-		mix.datagrams = append(mix.datagrams, append([]byte{0x40 | byte(g.r.Intn(64))}, g.bytes(g.r.Range(20, 60))...))
+		mix.datagrams = append(mix.datagrams, junk)
 		_, out := c06RunFlowNoise(mix, nil)
 		g.stats.Inc("flow.two_connections")
-		var got []string
-		for _, s := range strings.Fields(out) {
-			if strings.HasPrefix(s, "held=") || strings.HasPrefix(s, "dom=") || s == "-" {
-				continue
-			}
-			got = append(got, strings.Split(s, ",")...)
+		problem := exactlyOnceInOrder(flatten(out), [][][]byte{qa.datagrams, qb.datagrams, {junk}})
+		if problem != "" || strings.HasPrefix(out, "crash:") || c06FlowField(out, "held") != "0" {
+			fmt.Fprintf(viol, "two QUIC connections on one 4-tuple: %s (held=%s): %.300s\n", problem, c06FlowField(out, "held"), out)
 		}
-		count := map[string]int{}
+	}
+	// Dial failures (an error the endpoint pool does not cache) and undecryptable Initials: the
+	// branches of handlePkt that leave the sniff early.  No model behind this stream; the property:
+	// what reaches the outbound is a subsequence of what came in - nothing twice, nothing overtaken.
+	for i := 0; i < m; i++ {
+		qc := g.quicCase(g.hello().h.Handshake(), c06QuicV1)
+		if len(qc.oracle[0].dcid) < 8 || qc.hasClose {
+			i--
+			continue
+		}
+		kind := "dial_failure.valid_flight"
+		if g.r.Chance(0.5) { // an Initial-shaped datagram that does not authenticate, retransmitted
+			bad := append([]byte(nil), qc.datagrams[0]...)
+			bad[len(bad)-1] ^= 0x55
+			qc = &c06QuicCase{datagrams: [][]byte{bad, bad, bad}[:g.r.Range(2, 3)]}
+			kind = "dial_failure.undecryptable_retransmitted"
+		} else if g.r.Chance(0.5) {
+			qc.datagrams = append(qc.datagrams, qc.datagrams[0])
+		}
+		c06DialFails = g.r.Range(1, 2)
+		_, out := c06RunFlowNoise(qc, nil)
+		c06DialFails = 0
+		g.stats.Inc("flow." + kind)
+		got := flatten(out)
+		// subsequence test with multiplicities (retransmissions are equal byte strings)
+		p := 0
+		ok := !strings.HasPrefix(out, "crash:") && !strings.HasPrefix(out, "handlePkt-error")
 		for _, x := range got {
-			count[x]++
-		}
-		missing := 0
-		for _, d := range mix.datagrams {
-			k := fmt.Sprintf("%d:%d", len(d), c06Fnv(d))
-			if count[k] == 0 {
-				missing++
+			for p < len(qc.datagrams) && key(qc.datagrams[p]) != x {
+				p++
 			}
-			count[k]--
+			if p == len(qc.datagrams) {
+				ok = false
+				break
+			}
+			p++
 		}
-		if missing > 0 || strings.HasPrefix(out, "crash:") || c06FlowField(out, "held") != "0" {
-			fmt.Fprintf(viol, "two QUIC connections on one 4-tuple: %d of %d datagrams never reached the outbound: %.300s\n", missing, len(mix.datagrams), out)
+		if !ok {
+			fmt.Fprintf(viol, "%s: the outbound received [%s], which is not a subsequence of the %d datagrams that came in (a datagram twice, or overtaken): %.300s\n", kind, strings.Join(got, " "), len(qc.datagrams), out)
 		}
 	}
 	g.stats.Write("c06flow")
